@@ -453,4 +453,19 @@ theorem ps_recover264 (cfg : Cfg) (hc : RoundCfg cfg) (hp : cfg.psUntilReady264 
     cases hw : st.vmeta.widthKnown <;> cases hpe : st.vmeta.pps.isEmpty <;> cases hse : st.vmeta.sps.isEmpty <;>
       simp [h264MetaReady, hw, hpe, hse, hok, hr', hp]
 
+/-- the two parameter-set packets from the fresh state -/
+theorem startup264 (cfg : Cfg) (hc : RoundCfg cfg) (ok : Bytes → Bool)
+    (s1 s2 : UInt16) (t1 t2 : UInt32) (m1 m2 : Bool) (b c : UInt8) (bs cs : Bytes)
+    (hb : b &&& 0x1f = 7) (hcc : c &&& 0x1f = 8) (hok : ok (b :: bs) = true) :
+    vRun cfg ok .h264 {} [⟨s1, t1, m1, b :: bs⟩, ⟨s2, t2, m2, c :: cs⟩]
+      = ({ vmeta := { sps := b :: bs, pps := c :: cs }, ready := true }, [⟨false, t2, 0, c :: cs⟩], .ok) := by
+  have hl1 : ¬ (bs.length + 1 < cfg.h264Min) := by have := hc.h264Min; omega
+  have hl2 : ¬ (cs.length + 1 < cfg.h264Min) := by have := hc.h264Min; omega
+  have h7 : (7 : UInt8) < 24 := by decide
+  have h8 : (8 : UInt8) < 24 := by decide
+  have h712 : ¬ ((7 : UInt8) = 12) := by decide
+  have h812 : ¬ ((8 : UInt8) = 12) := by decide
+  have h87 : ¬ ((8 : UInt8) = 7) := by decide
+  simp [vRun, vStep, h264Step, hl1, hl2, hb, hcc, h7, h8, h264WriteFrame, h712, h812, h87, h264MetaReady, hok]
+
 end IpcHub.DepackRound
